@@ -65,6 +65,7 @@ class Loader(yaml.SafeLoader):
             # An empty document is a null value, and type checked as one.
             mark = yaml.error.Mark('<empty document>', 0, 0, 0, None, 0)
             node = yaml.ScalarNode('tag:yaml.org,2002:null', '', mark, mark)
+        self.__check_not_recursive(node, [], set())
         node = self.__process_node(node, type(self).document_type)
         return node
 
@@ -80,8 +81,42 @@ class Loader(yaml.SafeLoader):
         """
         node = cast(yaml.Node, super().get_node())
         if node is not None:
+            self.__check_not_recursive(node, [], set())
             node = self.__process_node(node, type(self).document_type)
         return node
+
+    def __check_not_recursive(
+            self, node: yaml.Node, ancestors: List[yaml.Node],
+            done: set) -> None:
+        """Raises RecognitionError if a node (indirectly) contains itself.
+
+        An alias may refer to a collection it is itself a part of. The
+        typed objects YAtiML constructs cannot be recursive, and
+        processing such a structure would not terminate.
+
+        Args:
+            node: The node to check.
+            ancestors: The collections node is a part of.
+            done: Ids of nodes that have been checked already.
+        """
+        if any(node is ancestor for ancestor in ancestors):
+            raise RecognitionError((
+                '{}\nThis refers to a part of the document that contains'
+                ' it, recursive structures are not supported.').format(
+                    node.start_mark))
+        if id(node) in done:
+            return
+        if isinstance(node, yaml.SequenceNode):
+            subnodes = list(node.value)
+        elif isinstance(node, yaml.MappingNode):
+            subnodes = [n for pair in node.value for n in pair]
+        else:
+            return
+        ancestors.append(node)
+        for subnode in subnodes:
+            self.__check_not_recursive(subnode, ancestors, done)
+        ancestors.pop()
+        done.add(id(node))
 
     def __type_to_tag(self, type_: Type) -> str:
         """Convert a type to the corresponding YAML tag.
